@@ -181,7 +181,7 @@ class C01(Prop):
                    'components whose unregistration is in flight may or may not receive (bracketed), everything else is exact',
                    'global handlers (no names, channel *) are never removed: Manager.removeHandler cannot remove them',
                    'tree membership is read from the real parent/components links at dispatch time (their consistency is C07)')
-    budget = {'quick': (2500, 4), 'thorough': (12000, 16)}
+    budget = {'quick': (2500, 4), 'thorough': (100000, 16)}
     shrink_lists = {'ops': 0}
 
     def setup(self):
